@@ -17,6 +17,8 @@ pub struct TypeCfg {
     pub def_names: &'static [&'static str],
     /// allow `empty`
     pub empty: bool,
+    /// method names are identifiers (possibly keywords of the targets), whatever odd_labels says
+    pub ident_methods: bool,
 }
 
 pub const DEF_NAMES: &[&str] = &["A", "B", "C", "D", "E", "F", "G", "H", "List", "Tree", "node", "t", "my_type", "T1"];
@@ -31,6 +33,7 @@ impl Default for TypeCfg {
             odd_labels: false,
             def_names: DEF_NAMES,
             empty: true,
+            ident_methods: false,
         }
     }
 }
@@ -126,6 +129,14 @@ pub fn gen_func(e: &mut Ent, sc: &Scope, depth: usize, cfg: &TypeCfg) -> Ty {
 }
 
 pub fn gen_method_name(e: &mut Ent, cfg: &TypeCfg) -> String {
+    if cfg.ident_methods {
+        return match e.below(4) {
+            0 => (*e.pick(labels::MOTOKO_KW)).to_string(),
+            1 => (*e.pick(labels::JS_KW)).to_string(),
+            2 => (*e.pick(labels::RUST_KW)).to_string(),
+            _ => (*e.pick(labels::IDENTS)).to_string(),
+        };
+    }
     if cfg.odd_labels {
         labels::label_name(e)
     } else {
